@@ -339,6 +339,43 @@ func c09MayBeNilAtom(g *ssa.Function, a RetAtom) bool {
 	return true
 }
 
+// c09AtomReachableFrom: some path from (b, idx) produces the return atom a (its
+// value fixed at the atom's anchor, then on to its Return along the phi edges
+// that select it) without hitting the cut.
+func c09AtomReachableFrom(b *ssa.BasicBlock, idx int, a RetAtom, c *cut) bool {
+	ab, ai := a.anchor()
+	if !reach(b, idx, ab.Instrs[ai], c) {
+		return false
+	}
+	if len(a.Edges) > 0 {
+		cur := a.Edges[len(a.Edges)-1]
+		if c.edges[cur] {
+			return false
+		}
+		for i := len(a.Edges) - 2; i >= -1; i-- {
+			var tgt ssa.Instruction = a.Ret
+			if i >= 0 {
+				nb := a.Edges[i].From
+				tgt = nb.Instrs[len(nb.Instrs)-1]
+			}
+			if !reach(cur.To, 0, tgt, c) {
+				return false
+			}
+			if i >= 0 {
+				cur = a.Edges[i]
+				if c.edges[cur] {
+					return false
+				}
+			}
+		}
+		return true
+	}
+	if a.Store != nil {
+		return reach(ab, ai+1, a.Ret, c)
+	}
+	return true
+}
+
 // c09Callee: the function called — also when it is a local closure kept in a
 // variable (`keep := func(…) {…}; keep(x)`), possibly captured by another closure.
 func c09Callee(call ssa.CallInstruction) *ssa.Function {
